@@ -1258,6 +1258,9 @@ class Exec:
         if isinstance(o, Opt):
             self.prove(st, 'safe:none-deref@%d' % line, Not(o.isnone), line)
             o = o.obj
+        if isinstance(o, OptVal):
+            self.prove(st, 'safe:none-deref@%d' % line, Not(o.isnone), line)
+            o = o.val
         if isinstance(o, Obj):
             hook = self.contracts.attr_hook
             if hook:
